@@ -139,19 +139,12 @@ func (h *Headers) Deserialize(frh *FrameHeader) error {
 }
 
 func (h *Headers) Serialize(frh *FrameHeader) {
-	if h.endStream {
-		frh.SetFlags(
-			frh.Flags().Add(FlagEndStream))
-	}
-
-	if h.endHeaders {
-		frh.SetFlags(
-			frh.Flags().Add(FlagEndHeaders))
-	}
+	// The flags say what this frame is, not what was in the header before.
+	frh.SetFlags(
+		frh.Flags().with(FlagEndStream, h.endStream).with(FlagEndHeaders, h.endHeaders).
+			with(FlagPriority, h.priority).with(FlagPadded, h.hasPadding))
 
 	if h.priority {
-		frh.SetFlags(
-			frh.Flags().Add(FlagPriority))
 
 		// prepend stream and weight to rawHeaders
 		h.rawHeaders = append(h.rawHeaders, 0, 0, 0, 0, 0)
@@ -161,8 +154,6 @@ func (h *Headers) Serialize(frh *FrameHeader) {
 	}
 
 	if h.hasPadding {
-		frh.SetFlags(
-			frh.Flags().Add(FlagPadded))
 		h.rawHeaders = http2utils.AddPadding(h.rawHeaders)
 	}
 
